@@ -21,7 +21,7 @@ import (
 var tablesFS embed.FS
 
 type frozenTable struct {
-	Property string   `json:"property"`
+	Property string    `json:"property"`
 	Specs    []FnSpecJ `json:"specs"`
 }
 
